@@ -225,7 +225,8 @@ func c12Case(k int) (msg interface{}, code uint16, body []byte, same func(d inte
 			}, &GlobalReportResponseCodec{}
 		}
 	case 10, 12: // GlobalLockQueryRequest / BranchRegisterRequest
-		xid, rid, lk, app := c12Str("xid"), c12Str("rid"), c12Str("lockKey"), c12Str("app")
+		// the lock key (32-bit length prefix) may be long: thousands of rows
+		xid, rid, lk, app := c12Str("xid"), c12Str("rid"), c12S("lockKey", c12Len("lockKey", []int{0, 1, 3, 65535, 65536, 70001})), c12Str("app")
 		bt := vrt.Uint8("bt")
 		w.str16(xid)
 		w.u8(bt)
